@@ -919,9 +919,12 @@ def _get_content_range(start: int | None, end: int | None, total: int) -> str:
 
 
 def _int_or_none(val: str) -> int | None:
-    val = val.strip()
     if val == "":
         return None
+    # int() also accepts signs, underscores, surrounding whitespace and
+    # non-ASCII digits, none of which are valid in a byte-range-spec.
+    if re.fullmatch(r"[0-9]+", val) is None:
+        raise ValueError("not an integer: %r" % val)
     return int(val)
 
 
